@@ -34,6 +34,7 @@ type Ctx struct {
 	pathFallbackOpen bool
 	lenEq            map[*types.Named]map[int][]int
 	lenEqWriters     map[*types.Named]map[*ssa.Function]bool
+	cgoNameSeen      bool
 	derefVia         map[ssa.Instruction]ssa.Value
 	outcomeBusy      map[*ssa.Function]bool
 	listBusy         map[*ssa.Phi]bool
